@@ -259,7 +259,13 @@ func (x *Exec) merge(sts []*State) (*State, error) {
 				n.cellOf[k] = va
 			}
 		}
-		for k, va := range acc.cells {
+		cellKeys := make([]int, 0, len(acc.cells))
+		for k := range acc.cells {
+			cellKeys = append(cellKeys, k)
+		}
+		sort.Ints(cellKeys)
+		for _, k := range cellKeys {
+			va := acc.cells[k]
 			if vb, ok := s.cells[k]; ok {
 				if m, ok := x.mergeVal(c, va, vb); ok {
 					n.cells[k] = m
@@ -288,7 +294,12 @@ func (x *Exec) merge(sts []*State) (*State, error) {
 				}
 			}
 		}
+		sortedKeys := make([]string, 0, len(keys))
 		for k := range keys {
+			sortedKeys = append(sortedKeys, k)
+		}
+		sort.Strings(sortedKeys)
+		for _, k := range sortedKeys {
 			ha, oka := acc.heap[k]
 			hb, okb := s.heap[k]
 			var sortS string
@@ -1108,9 +1119,9 @@ func (x *Exec) val(st *State, v ssa.Value) (Val, error) {
 
 func (vc *VC) globalRef(g *ssa.Global) Term {
 	name := "g_" + sanitize(g.Pkg.Pkg.Path()+"."+g.Name())
-	vc.decl("fun:ref.kind", "(declare-fun ref.kind (Int) Int)")
+	vc.decl("fun:ref.kind", "(declare-fun ref.kind (Int) Int)\n(declare-fun ref.iptr (Int) Bool)")
 	id := vc.kindID(name)
-	vc.decl("global:"+name, fmt.Sprintf("(declare-const %s Int)\n(assert (and (> %s 0) (= (ref.kind %s) %d)))", name, name, name, id))
+	vc.decl("global:"+name, fmt.Sprintf("(declare-const %s Int)\n(assert (and (> %s 0) (= (ref.kind %s) %d) (not (ref.iptr %s))))", name, name, name, id, name))
 	return raw(name, SInt)
 }
 
